@@ -22,10 +22,17 @@ def run(chk):
     pc.run_policy_check(chk, "C11", "proj_P12", {"mode": "execute", "p_no_retry": 0.6, "p_nested_coe": 0.3, "p_special": 0.3,
                                                   "specials": ["A", "C", "N", "N"]}, oracle_pid="C11P", theorems_ok=ok,
                         cov_key="policy_outcomes", n_quick=200, n_thorough=3000)
+    # values without an identity of their own (None, 0, "", ...): oracle on the implementation (props/C04.py)
+    import importlib
+    importlib.import_module("props.C04").values_part(chk, modes=("execute",))
     if ok:
         import source_tie
         source_tie.runner_ties(chk)
 
 
 def replay(path):
+    import json
+    if "values_case" in json.load(open(path)):
+        import importlib
+        return importlib.import_module("props.C04").replay(path)
     return rc.replay_runner(path)
